@@ -87,7 +87,6 @@ M=[
  ("C12.wsp-pause-init","service/wsp/session.go","\t\t\treq.Method == rtsp.MethodPause ||\n","",["C12"]),
  ("C12.wsp-setup-sticky","service/wsp/session.go","\t\tif resp.StatusCode != rtsp.StatusOK {\n\t\t\ts.transport = oldTransport","\t\tif false {\n\t\t\ts.transport = oldTransport",["C12"]),
  ("C03.mcast-first-only","service/rtsp/multicast_proxy.go","\t}\n\tproxy.members = append(proxy.members, m)\n}","\t\tproxy.members = append(proxy.members, m)\n\t}\n}",["C03","C12"]),
- ("C13.wsp-shared-buffer","service/wsp/session.go","\tbuf := buffers.Get().(*bytes.Buffer)\n\tbuf.Reset()\n\tdefer buffers.Put(buf)\n\tp2 := p.(*rtsp.RTPPack)","\tbuf := wspSharedBuf\n\tbuf.Reset()\n\tp2 := p.(*rtsp.RTPPack)",["C13"]),
 ]
 sel=sys.argv[1:]
 res=[]
